@@ -438,7 +438,7 @@ pub fn gen_history(rng: &mut Rng, o: &GenOpts) -> (WorldCfg, Vec<Op>) {
                 let l = g.user_lines();
                 ops.push(Op::MpSuspend(l));
             }
-            18 => ops.push(Op::Remove(b)),
+            18 => ops.push(if g.rng.chance(1, 4) { Op::ReAdd(b) } else { Op::Remove(b) }),
             19 => {
                 if o.exhaust && g.rng.chance(1, 2) {
                     exhaust(&mut g, b, &mut ops);
